@@ -142,6 +142,8 @@ def minimise(rp, cls, max_runs=150):
                 ms = [world.Msg(m["instant"], base64.b64decode(m["data_b64"]), b"") for m in s["msgs"][:2]]
                 if not merge.blockzero_safe(base64.b64decode(s["plain_b64"]), ms, bsz_of(cand)):
                     return False
+        if not core.budget_ok():
+            return False
         runs[0] += 1
         try:
             return cls in classes_of(cand)
